@@ -237,6 +237,7 @@ def check_time_claims(chk, prog, env, model):
         claims = (IAT if mask & 1 else 0) | (NBF if mask & 2 else 0) | (EXP if mask & 4 else 0)
         sets = []
         copies = []
+        narrowed = []
 
         class R(H.CallbackRule):
             alloc_may_fail = False
@@ -254,6 +255,17 @@ def check_time_claims(chk, prog, env, model):
 
             def on_cb(self, it, s, args, node):
                 s.ts['cb'] = True
+
+            def on_narrow(self, it, st, v, node, from_type, to_type):
+                def mentions(k):
+                    if isinstance(k, tuple) and k:
+                        if (k[0] in ('api', 'call') and len(k) > 1 and k[1] == 'time') or \
+                                (k[0] == 'mem' and len(k) > 2 and k[2] in ('c.exp', 'c.nbf')):
+                            return True
+                        return any(mentions(x) for x in k)
+                    return False
+                if mentions(vkey(v)):
+                    narrowed.append((node_loc(node), from_type, to_type, it.frames[-1] if it.frames else '?'))
         hooks = H.std_hooks(env, extra={'jwt_claim_set': lambda it, st, a, nd: [(st, Int(0))],
                                         'jwt_head_setup': lambda it, st, a, nd: [(st, Int(0))],
                                         'jwt_encode_str': lambda it, st, a, nd: [(st, Term(('token',), ptr=True))]})
@@ -268,6 +280,10 @@ def check_time_claims(chk, prog, env, model):
         H.bind_provider(st, 'openssl')
         it.run('jwt_builder_generate', [Ref(o)], st)
         n += 1
+        for (f_, l_), ft, tt, fn_ in sorted(set(narrowed)):
+            bad += 1
+            chk.add(Finding('C10.time-claims', f_ or unit, fn_, 'narrowed', 'the clock / a time offset is converted from %s to %s on its way into '
+                            'a time claim: the claim is not now + offset beyond that type' % (ft, tt), line=l_))
         got = {}
         for nm, iv, rp, ty, jw, aftercb in sets:
             k = nm.text() if isinstance(nm, Str) else repr(nm)
